@@ -86,7 +86,9 @@ func c11pairing(c *Ctx) {
 			if n := p.Count(done); n != 1 {
 				return false, fmt.Sprintf("doneExecution ×%d on exit %s (Wait would hang or the counter go negative)", n, p.Exit)
 			}
-			for _, e := range p.All(func(e *px.Event) bool { return e.Kind == px.EvCall && e.Call.Method != nil && e.Call.Method.Name() == "Execute" }) {
+			for _, e := range p.All(func(e *px.Event) bool {
+				return e.Kind == px.EvCall && e.Call.Method != nil && e.Call.Method.Name() == "Execute"
+			}) {
 				if e.Via == nil || shortName(e.Via) != "core/threading.RunSafe" {
 					return false, "container.Execute runs outside threading.RunSafe: a panicking task kills the flusher"
 				}
@@ -178,11 +180,15 @@ func c11handoff(c *Ctx) {
 			if p.Exit != px.ExitReturn {
 				return true, ""
 			}
-			at := p.First(func(e *px.Event) bool { return e.Kind == px.EvCall && e.Call.Method != nil && e.Call.Method.Name() == "AddTask" })
+			at := p.First(func(e *px.Event) bool {
+				return e.Kind == px.EvCall && e.Call.Method != nil && e.Call.Method.Name() == "AddTask"
+			})
 			if at == nil || !isParam(at.Call.Args[0], f.Params[1]) {
 				return false, "the task is not added"
 			}
-			rm := p.All(func(e *px.Event) bool { return e.Kind == px.EvCall && e.Call.Method != nil && e.Call.Method.Name() == "RemoveAll" })
+			rm := p.All(func(e *px.Event) bool {
+				return e.Kind == px.EvCall && e.Call.Method != nil && e.Call.Method.Name() == "RemoveAll"
+			})
 			var inc []*px.Event
 			for i := range p.Events {
 				if isInflightAdd(&p.Events[i], p, 1) {
